@@ -32,4 +32,5 @@ def main(tier):
     chk.run("R-ADJACENCY", A.adjacency, r, floor=300)
     chk.run("R-FMTGUARD", F.fmtguard, r, floor=4)
     chk.run("R-FMTSELFCHECK", F.sanity_check_shape, r, floor=3)
+    chk.run("R-FMTPARTS", F.fmtparts, cx.repo, floor=1)
     return chk.finish()
